@@ -311,5 +311,35 @@ def r13_3(ctx):
                                                          "truncating the destination truncates the backup too", cp.loc()))
 
 
+def r13_4(ctx):
+    """R13.4 regenerating an unchanged configuration produces the same text: (a) alias tables keep insertion order (no
+    hash-ordered container between the rename files and the generated text, C07 R07.7); (b) the default marker of a line is
+    decided from the freshly evaluated value (C03 R03.6), so two consecutive writes of one configuration agree; (c) the
+    backup name is the destination name plus `.old` (appended, not a replaced suffix)."""
+    from . import c03, c07
+    before = len(ctx.instances)
+    c07.r07_7(ctx)
+    keep = [i for i in ctx.instances[before:] if "insertion order" in i.construct]
+    dropped = {i.construct for i in ctx.instances[before:]} - {i.construct for i in keep}
+    ctx.instances[before:] = keep
+    ctx.findings[:] = [f for f in ctx.findings if not (f.rule == ctx._rule and f.construct in dropped)]
+    before = len(ctx.instances)
+    c03.r03_6(ctx)
+    keep = [i for i in ctx.instances[before:] if i.construct.startswith("Symbol.config_string/")]
+    dropped = {i.construct for i in ctx.instances[before:]} - {i.construct for i in keep}
+    ctx.instances[before:] = keep
+    ctx.findings[:] = [f for f in ctx.findings if not (f.rule == ctx._rule and f.construct in dropped)]
+    repo = ctx.repo
+    s = repo.func(f"{CORE}:_save_old")
+    path = s.node.args.args[0].arg
+    calls = [n for n in ast.walk(s.node) if isinstance(n, ast.Call) and repo.enclosing_func(n) is s and isinstance(n.func, ast.Name) and len(n.args) == 2
+             and ast.unparse(n.args[0]) == path]
+    construct = "_save_old/backup is <destination>.old"
+    ok = bool(calls) and ast.unparse(calls[0].args[1]).replace('"', "'") == f"{path} + '.old'"
+    (ctx.ok(construct, s.loc(calls[0]) if calls else s.loc()) if ok else
+     ctx.bad(construct, f"the backup goes to `{ast.unparse(calls[0].args[1]) if calls else '?'}`: for a destination with a dot in its name (sdkconfig.ci) the previous contents are "
+             "not in <destination>.old", s.loc(calls[0]) if calls else s.loc()))
+
+
 def rules():
-    return [("R13.1", r13_1, 6), ("R13.1b", r13_1b, 2), ("R13.2", r13_2, 4), ("R13.3", r13_3, 4)]
+    return [("R13.1", r13_1, 6), ("R13.1b", r13_1b, 2), ("R13.2", r13_2, 4), ("R13.3", r13_3, 4), ("R13.4", r13_4, 3)]
